@@ -78,7 +78,7 @@ func (o *ostate) proves(e *oev) bool {
 	}
 	if e.kind == "lca" {
 		cfh, _ := strconv.ParseInt(e.m["cfh"], 10, 64)
-		return e.m["ok"] == "1" && e.h < o.storeH && cfh < o.storeH
+		return (e.m["ok"] == "1" || e.m["gen"] == "1") && e.h < o.storeH && cfh < o.storeH
 	}
 	a, ok1 := oparseVote(e.m["a"])
 	bb, ok2 := oparseVote(e.m["b"])
@@ -172,6 +172,21 @@ func oracle(c core.Case, out []string) []core.Finding {
 		case "pe":
 			o.checkPE(m, out[i], add)
 			continue
+		case "prep":
+			if e := o.defs[m["e"]]; e != nil && strings.HasPrefix(out[i], "prep send=") {
+				sent := out[i] == "prep send=1"
+				ph, err := strconv.ParseInt(m["ph"], 10, 64)
+				want := err == nil && ph > e.h && ph-e.h <= o.A
+				switch {
+				case sent && !want && (err != nil || ph <= e.h):
+					add("reactor.prepare.sends-to-peer-behind", fmt.Sprintf("evidence of height %d would be sent to a peer at height %s", e.h, m["ph"]))
+				case sent && !want:
+					add("reactor.prepare.sends-too-old-for-peer", fmt.Sprintf("evidence of height %d would be sent to a peer at height %d (max age %d blocks)", e.h, ph, o.A))
+				case !sent && want:
+					add("reactor.prepare.withholds-from-peer", fmt.Sprintf("evidence of height %d is not sent to a peer at height %d (max age %d blocks)", e.h, ph, o.A))
+				}
+			}
+			continue
 		}
 		size, pend, comm, ok := parseView(out[i])
 		if !ok || res == "dead" {
@@ -234,6 +249,63 @@ func oracle(c core.Case, out []string) []core.Finding {
 			}
 			if res != "ok" && has(pend, e.key) && !has(prePend, e.key) {
 				add("pool.AddEvidence.error-but-pending", "AddEvidence returned an error yet the item became pending")
+			}
+		case "recv":
+			if res != "recv" {
+				break
+			}
+			stopped := strings.Contains(out[i], "stop=1")
+			wantStop := false
+			cur := append([]string{}, prePend...)
+			var ds []*oev
+			for _, id := range strings.Split(m["l"], ",") {
+				if e := o.defs[id]; e != nil {
+					ds = append(ds, e)
+					if e.m["vb"] != "1" {
+						wantStop = true // the whole message fails to decode / validate
+					}
+				}
+			}
+			if !wantStop {
+				for _, e := range ds {
+					if has(cur, e.key) || has(preComm, e.key) {
+						continue
+					}
+					if o.proves(e) && !o.expired(e.h, e.t) {
+						cur = append(cur, e.key)
+						continue
+					}
+					wantStop = true
+					break
+				}
+			} else {
+				cur = prePend
+			}
+			for _, k := range pend {
+				if !has(prePend, k) {
+					e := o.byKey(k)
+					switch {
+					case has(preComm, k):
+						add("reactor.Receive.admits-committed", "a peer message made committed evidence pending again: "+k)
+					case e != nil && o.expired(e.h, e.t):
+						add("reactor.Receive.admits-expired", "a peer message got expired evidence admitted: "+k)
+					case !has(cur, k):
+						add("reactor.Receive.admits-invalid", "a peer message got evidence admitted that the reference verifier rejects (or that follows an invalid item): "+k)
+					}
+				}
+			}
+			for _, k := range cur {
+				if !has(pend, k) && o.uniqueKey(k) {
+					if e := o.byKey(k); e != nil && (e.kind == "dv" || e.m["gen"] == "1") {
+						add("reactor.Receive.rejects-valid."+e.kind, "valid, fresh, new evidence from a peer was not admitted: "+k)
+					}
+				}
+			}
+			if stopped && !wantStop {
+				add("reactor.Receive.punishes-honest-peer", fmt.Sprintf("the peer was stopped although every item of its message was valid or already known (op %q)", op))
+			}
+			if !stopped && wantStop {
+				add("reactor.Receive.keeps-peer-sending-invalid", fmt.Sprintf("a peer sent invalid evidence and was not stopped (op %q)", op))
 			}
 		case "check":
 			if res != "ok" {
